@@ -46,6 +46,21 @@ theorem reward_range (cur new : α) (hc : 0 < cur) (hn : 0 ≤ new) :
     · rw [div_le_one hc]; linarith
   · simp
 
+/-- the rule at a NEGATIVE reference (losses such as a negative log-likelihood): the formula is the same, its value is then negative - the reward
+of an improvement is below zero - and the reference still moves.  (`harness/props/c19.py` scripts negative references; a variant of the code that
+rewards only positive relative improvements leaves the reference behind there.) -/
+theorem reward_negative_reference (cur new : α) (hc : cur < 0) (h : new < cur) :
+    (getReward 0 cur new).1 < 0 ∧ (getReward 0 cur new).2 = new := by
+  rw [reward_improving cur new h]
+  exact ⟨div_neg_of_pos_of_neg (by linarith) hc, rfl⟩
+
+/-- the reference moves exactly when the best loss decreased, whatever the signs -/
+theorem reward_reference_moves_iff (cur new : α) : (getReward 0 cur new).2 ≠ cur ↔ new < cur := by
+  unfold getReward
+  split
+  · next h => simp [h, h.ne]
+  · next h => simp [h]
+
 /-! ## learning -/
 
 /-- the step size: `1/count` in the sample-average setting (sentinel −1), the learning rate otherwise -/
